@@ -130,10 +130,16 @@ ip.loop(1, lambda cx, k, v: z3.And(z3.ULE(S._t(v.prefix_i_), 0xFFFFFFFF),
 IPNET_NONE = z3.Function("ipnet_is_none", z3.BitVecSort(BVW), z3.BitVecSort(BVW), z3.BoolSort())
 IPNET_VAL = z3.Function("ipnet_value", z3.BitVecSort(BVW), z3.BitVecSort(BVW), Net)
 
-il = contract("cisco_acl.helpers.init_line", dict(line=TStr), TStr, verify=False, props=("C05",),
-              note="for a str argument: returns the text with single spaces, i.e. the same whitespace-separated tokens, and never raises: str.split/join, audited")
+# the text normaliser every `line` setter calls: the result has exactly the words of the argument, in their order, and a str argument is never refused.
+# Proved from the bodies (`" ".join(line.split())`); what stays assumed is the engine's law for that idiom (pyvc/builtins_: the whitespace split of
+# " ".join(tokens) gives the tokens back), listed under the assumed semantics.
+rs = contract("cisco_acl.helpers.replace_spaces", dict(line=TStr), TStr, props=("C05", "C06"))
+rs.ensure("words", lambda cx, result, line: z3.And(WS_LEN(S._t(result)) == WS_LEN(S._t(line)), z3.ForAll([z3.Int("i!rs")], z3.Implies(
+    z3.And(0 <= z3.Int("i!rs"), z3.Int("i!rs") < WS_LEN(S._t(line))), WS_ARR(S._t(result))[z3.Int("i!rs")] == WS_ARR(S._t(line))[z3.Int("i!rs")]))))
+il = contract("cisco_acl.helpers.init_line", dict(line=TStr), TStr, props=("C05", "C06"))
 # (TypeError only for a non-str argument: cannot happen for the str-typed parameter of this contract)
-il.ensure("tokens", lambda cx, result, line: z3.And(WS_LEN(S._t(result)) == WS_LEN(S._t(line)), WS_ARR(S._t(result)) == WS_ARR(S._t(line))))
+il.ensure("words", lambda cx, result, line: z3.And(WS_LEN(S._t(result)) == WS_LEN(S._t(line)), z3.ForAll([z3.Int("i!il")], z3.Implies(
+    z3.And(0 <= z3.Int("i!il"), z3.Int("i!il") < WS_LEN(S._t(line))), WS_ARR(S._t(result))[z3.Int("i!il")] == WS_ARR(S._t(line))[z3.Int("i!il")]))))
 
 ci = contract("cisco_acl.wildcard.Wildcard._create_ipnet", dict(self=TObj("Wildcard")), TOpt(TNet), verify=False, props=("C05",),
               note="dotted-quad text + IPv4Network parsing: bounded stand-in only; here: a function of the current _prefix/_wildmask")
